@@ -221,6 +221,23 @@ def make_matrix(rng, fam):
     return u2_random(rng, fam)
 
 
+def matrix_group(fam):
+    """coarse class of the matrix family, for the histogram"""
+    if fam in SU2_FIXED:
+        return "su2_boundary"
+    if fam in ("diag", "antidiag", "real_rot", "rx", "xy_axis", "yz_axis"):
+        return "su2_axis"
+    if fam in ("general", "general2"):
+        return "su2_general"
+    if fam in SU2_RANDOM:
+        return "su2_near_boundary"
+    if fam == "near_minusI_real":
+        return "su2_real_within_5e-6_of_-I"
+    if fam in U2_FIXED:
+        return "u2_named"
+    return "u2_phase"
+
+
 SU2_FAMILIES = list(SU2_FIXED) + SU2_RANDOM
 U2_FAMILIES = list(U2_FIXED) + U2_RANDOM
 CLASS_FAMILIES = {
@@ -519,7 +536,7 @@ def finish_case(ctx, case):
         extra = STATE_FAMILIES[2 + int(ctx.rng.integers(len(STATE_FAMILIES) - 2))]
         case["states"] = ["ctrl_match", "haar", extra]
     if case["kind"] == "cu":
-        fam = f"{case['class']}:{case['mat_family']}"
+        fam = f"{case['class']}:{matrix_group(case['mat_family'])}"
         if case.get("up_to_diagonal"):
             fam = f"Mcg(up_to_diagonal):{'su2' if case['det1'] else 'u2'}"
         key = (case["class"], k, case["ctrl_state"], str(case["matrix"]), case["entry"], case.get("up_to_diagonal"),
